@@ -289,6 +289,9 @@ func (r *renderer) get(id string) *rnode {
 		panic("unknown block " + id)
 	}
 	parent := r.get(b.parent)
+	if n, ok := r.nodes[id]; ok { // created as a base child while the parent was built
+		return n
+	}
 	n := &rnode{b: b}
 	r.nodes[id] = n
 	parent.entries = append(parent.entries, rentry{child: n})
